@@ -195,16 +195,17 @@ theorem nextToken_length (stops : List Ch) (inp : Str) :
       simp only [List.length_cons] at this
       omega
 
-/-- every token consumes input, except `eoe`, a stop separator, an error, or an operator -/
-theorem nextToken_progress (stops : List Ch) (inp : Str) :
+/-- every token consumes input, except `eoe`, the NUL stop separator of an exhausted input,
+an error, or an operator -/
+theorem nextToken_progress' (stops : List Ch) (inp : Str) :
     (nextToken stops inp).2.length < inp.length ∨ (nextToken stops inp).1.isEoe ∨
-    (nextToken stops inp).1.isStopSep stops ∨ (nextToken stops inp).1.isOperator ∨
-    (nextToken stops inp).1.isError := by
+    ((nextToken stops inp).1 = .separator 0 ∧ stops.contains 0 = true) ∨
+    (nextToken stops inp).1.isOperator ∨ (nextToken stops inp).1.isError := by
   have h := eatSpace_length inp
   unfold nextToken
   split
   · rename_i heq
-    rw [readWord]; cases hs : stops.contains 0 <;> simp_all [Token.isEoe, Token.isStopSep]
+    rw [readWord]; cases hs : stops.contains 0 <;> simp_all [Token.isEoe]
   · rename_i c rest heq
     rw [heq] at h
     simp only [List.length_cons] at h
@@ -216,5 +217,16 @@ theorem nextToken_progress (stops : List Ch) (inp : Str) :
       · left; omega
       · right; right; right; left; exact h1
       · right; right; right; right; exact h1
+
+theorem nextToken_progress (stops : List Ch) (inp : Str) :
+    (nextToken stops inp).2.length < inp.length ∨ (nextToken stops inp).1.isEoe ∨
+    (nextToken stops inp).1.isStopSep stops ∨ (nextToken stops inp).1.isOperator ∨
+    (nextToken stops inp).1.isError := by
+  rcases nextToken_progress' stops inp with h | h | ⟨h1, h2⟩ | h | h
+  · exact Or.inl h
+  · exact Or.inr (Or.inl h)
+  · right; right; left; rw [h1]; exact h2
+  · exact Or.inr (Or.inr (Or.inr (Or.inl h)))
+  · exact Or.inr (Or.inr (Or.inr (Or.inr h)))
 
 end Rfsm.Expr
